@@ -324,7 +324,7 @@ class Run:
     def doc(self, h, alias=False):
         # keepref: hold on to the document object like user code that does `doc = project.doc` once
         # (dropped whenever the job behind the handle is removed / re-keyed: its document moves)
-        if getattr(self, "keepref", False):
+        if getattr(self, "keepref", False) and not getattr(self, "fresh_access", False):
             if "docref" not in h:
                 h["docref"] = h["obj"].document if alias else h["obj"].doc
             return h["docref"]
@@ -735,6 +735,9 @@ class Run:
 
     def step(self, i, op):
         self.step_no = i
+        # with a held reference, some accesses still go through a fresh `obj.doc` (e.g. a helper that
+        # reads job.doc in between) -- the held reference must stay the live document all the same
+        self.fresh_access = bool(op.get("fresh"))
         name = str(op.get("op"))
         self.opname = name
         t = op.get("t", 0)
@@ -1050,6 +1053,8 @@ def one_op(draw, ntargets):
         op["via"] = draw(st.sampled_from(["setitem", "attr", "update_statepoint", "assign"]))
     if name in ("assign_doc", "setitem", "read_call", "update") and draw(st.integers(0, 3)) == 0:
         op["alias"] = True
+    if name in READ_OPS and draw(st.integers(0, 2)) == 0:
+        op["fresh"] = True
     return op
 
 
@@ -1117,6 +1122,12 @@ def _c(ops, **kw):
 
 
 CONSTRUCTED = [
+    # held reference + read-only fresh accesses in between, on a job / project without a document file yet
+    {"targets": 1, "keepref": True, "nh": 1, "init": [None, None], "copy_after_doc": False, "mode_R": [], "capacity": None, "ops": [
+        {"op": "setitem", "t": 0, "h": 0, "k": "a", "v": 1}, {"op": "delitem", "t": 0, "h": 0, "k": "a"},
+        {"op": "read_call", "t": 0, "h": 0, "fresh": True}, {"op": "setitem", "t": 0, "h": 0, "k": "b", "v": [1, 2]},
+        {"op": "setitem", "t": 1, "h": 0, "k": "a", "v": 1}, {"op": "delitem", "t": 1, "h": 0, "k": "a"},
+        {"op": "read_len", "t": 1, "h": 0, "fresh": True}, {"op": "setitem", "t": 1, "h": 0, "k": "c", "v": {"d": 1}}]},
     # a document reference taken once (`doc = project.doc`) is used on both sides of a whole-document
     # assignment that restores the content the block started from (project document, then job document)
     {"targets": 1, "keepref": True, "nh": 1, "init": [{}, {}], "copy_after_doc": False, "mode_R": [], "capacity": None, "ops": [
